@@ -9,7 +9,9 @@ invalid repeat offsets); inputs are built to use the dictionary content and symb
 Checked: loader agreement (CDict / DDict / R / all ID queries), round trip for every supply mode on both sides
 through libzstd AND through the extracted reference decoder R, dictID recorded in the frame, wrong-ID decode refused,
 and arbitrary bytes as dictionary under ASan+UBSan."""
+import json
 import random
+import time
 
 from .. import codec, core
 
@@ -156,6 +158,254 @@ def input_for(rng, d, name):
     return x[:200000]
 
 
+# ---------------------------------------------------------------------------------------------------------------------
+# Round 2: the API surface beyond zv_codec (harness/c08_api.c): every recipe = compression API family x advanced parameters x
+# way of supplying the dictionary x number of frames, then EVERY decoding path, the ID queries and the wrong-ID refusal.
+API_KEYS = [("records dictID", "C08-dictid-dropped-by-cdict-digested-under-nodictid"),
+            ("getDictID_fromCDict", "C08-dictid-dropped-by-cdict-digested-under-nodictid"),
+            ("loader_disagreement", "C08-api-loader-disagreement"), ("loader disagreement", "C08-api-loader-disagreement"),
+            ("accepted with a dictionary of ID", "C08-api-wrong-id-accepted"), ("accepted without any dictionary", "C08-api-wrong-id-accepted"),
+            ("ZSTD_dct_fullDict accepted", "C08-api-fulldict-accepts-raw"), ("compression failed", "C08-api-compress-failed"),
+            ("gives different bytes", "C08-api-round-trip"), ("decode", "C08-api-round-trip")]
+
+
+def api_key(what):
+    for pat, key in API_KEYS:
+        if pat in what:
+            return key
+    return "C08-api-other"
+
+
+def api_run(ctx, exe, lines, nproc=None, timeout=2400, variant="o1", keyhint=None):
+    """runs R/T/B lines of c08_api; reports FAIL lines and crashes; returns {id: rest}"""
+    byid = {l.split(" ")[1]: l for l in lines}
+    out, errs = codec._run_chunks(exe, lines, nproc or core.NCPU, timeout)
+    for i, rest in out.items():
+        if rest.startswith("FAIL"):
+            f = dict(kv.split("=", 1) for kv in rest.split(" ")[1:] if "=" in kv)
+            t = byid[i].split(" ")
+            t[3], t[4] = f.get("k", t[3]), "1"
+            what = f.get("what", "?").replace("_", " ")
+            ctx.violation(dict(kind="api", variant=variant, line=" ".join(t), recipe=f.get("recipe", "").replace("_", " "), what=what),
+                          what="dictionary API recipe fails: %s [%s]" % (what, f.get("recipe", "").replace("_", " ")[:400]), key=keyhint or api_key(what))
+    missing = [i for i in byid if i not in out]
+    if errs or missing:
+        # a crash loses the rest of its chunk: re-run the lines without an answer one per process to name the culprit
+        culprit = None
+        for i in missing[:40]:
+            o2, e2 = codec._run_chunks(exe, [byid[i]], 1, timeout)
+            if e2 or i not in o2:
+                culprit = (i, (e2[0][1] if e2 else "no output")[-1500:])
+                break
+            out.update(o2)
+        detail = culprit[1] if culprit else (errs[0][1][-1500:] if errs else "")
+        ctx.violation(dict(kind="api", variant=variant, line=byid[culprit[0]] if culprit else None, detail=detail),
+                      what="c08_api (%s build) crashed or trapped on a dictionary recipe: %s" % (variant, detail[-400:].replace("\n", " ")),
+                      key=keyhint or ("C08-api-sanitizer" if variant == "asan" else "C08-api-crash"))
+    return out
+
+
+def hostile_variant(rng, d, hl):
+    b = bytearray(d)
+    r = rng.random()
+    if r < 0.5:
+        for _ in range(rng.randint(1, 4)):
+            b[rng.randrange(8, min(hl + 12, len(b)))] = rng.randrange(256)
+    elif r < 0.7:
+        b = b[:rng.randrange(8, min(hl + 14, len(b)))]
+    elif r < 0.85:
+        b[rng.randrange(8, max(9, hl))] ^= 1 << rng.randrange(8)
+    else:
+        b = b[:hl] + b[hl:hl + rng.choice([0, 1, 2, 7, 8, 9])]
+    return bytes(b)
+
+
+def api_surface(ctx, rng, cd, dicts, verdict):
+    q = ctx.quick
+    exe = core.build_harness("c08_api", ["c08_api.c"], variant="o1", extra_flags=["-w"])
+    exa = core.build_harness("c08_api", ["c08_api.c"], variant="asan", extra_flags=["-w"])
+    seed = ctx.seed * 1000003 + 17
+    inputs = {}
+    lines, alines, frames_for_R = [], [], {}
+    per, step = (40, 10) if q else (1500, 50)
+    for i, (name, d) in enumerate(dicts):
+        if name == "advOFpartial":
+            continue
+        x = input_for(rng, d, name)[:60000]
+        if len(x) < 50:
+            x = input_for(rng, d, name)[:60000] + codec.gen_input(rng, "text", 400)
+        inputs[i] = x
+        for j in range(0, per, step):
+            lines.append("R a%d.%d %d %d %d 4 %s %s" % (i, j, seed, j, step, codec.hx(d), codec.hx(x)))
+        for j in range(per, per + (10 if q else 200), 10):
+            alines.append("R s%d.%d %d %d 10 0 %s %s" % (i, j, seed, j, codec.hx(d), codec.hx(x)))
+    # inputs of several blocks (reload instead of attach / copy above 128 KiB and 6 x dictionary size; the dictionary scrolls out of the window)
+    for i in rng.sample(sorted(inputs), 6 if q else 30):
+        name, d = dicts[i]
+        parts = [inputs[i]]
+        while sum(map(len, parts)) < 300000:
+            parts.append(codec.gen_input(rng, rng.choice(["text", "lowent", "random", "rep3"]), rng.choice([3000, 30000, 100000])))
+            parts.append(input_for(rng, d, name)[:5000])
+        x = b"".join(parts)[:rng.choice([131072, 140000, 262144, 400000])]
+        lines.append("R l%d %d %d %d 0 %s %s" % (i, seed, 5000, 5 if q else 60, codec.hx(d), codec.hx(x)))
+    # multithreaded frames with a dictionary (1.4 MB generated from dictionary + input pieces, 512 KiB jobs)
+    for i in rng.sample(sorted(inputs), 3 if q else 12):
+        lines.append("R m%d %d %d %d 1 %s %s" % (i, seed, 7000, 3 if q else 25, codec.hx(dicts[i][1]), codec.hx(inputs[i][:20000])))
+    # formatted dictionaries with a large content (around 128 KiB and the window sizes), references anywhere into them
+    fm = [(n, d) for n, d in dicts if n in ADV_INFO and min(ADV_INFO[n][0]) >= 1 and max(ADV_INFO[n][0]) <= len(ADV_INFO[n][1])]
+    for k in range(4 if q else 24):
+        if not fm:
+            break
+        n, d = rng.choice(fm)
+        hdr = d[:len(d) - len(ADV_INFO[n][1])]
+        size = rng.choice([70000, 131072 - 20, 131072, 140000, 262144 + 5, 300000])
+        newc = codec.gen_input(rng, rng.choice(["text", "lowent", "rep3"]), size)
+        parts = []
+        for _ in range(rng.randint(3, 12)):
+            a = rng.randrange(len(newc) - 2000)
+            parts.append(newc[a:a + rng.choice([20, 200, 2000])])
+            parts.append(codec.gen_input(rng, rng.choice(["text", "random", "lowent"]), rng.choice([10, 300, 3000, 30000])))
+        x = b"".join(parts)
+        if rng.random() < 0.4:
+            x = (x * 10)[:400000]
+        lines.append("R g%d %d %d %d 0 %s %s" % (k, seed, 9000, 5 if q else 40, codec.hx(hdr + newc), codec.hx(x)))
+    # formatted dictionaries with a tiny content (1..8 bytes: nothing to index, repeat offsets still live)
+    for k, n_c in enumerate([1, 2, 3, 7, 8, 9]):
+        if not fm:
+            break
+        n, d = fm[k % len(fm)]
+        hdr = bytearray(d[:len(d) - len(ADV_INFO[n][1])])
+        c = codec.gen_input(rng, "text", n_c)
+        hdr[-12:] = b"".join(min(v, n_c).to_bytes(4, "little") for v in (1, n_c, max(1, n_c - 1)))
+        x = (c * 30) + codec.gen_input(rng, "text", 500) + c * 5
+        lines.append("R t%d %d %d %d 0 %s %s" % (k, seed, 11000, 10 if q else 100, codec.hx(bytes(hdr) + c), codec.hx(x)))
+        alines.append("R u%d %d %d %d 0 %s %s" % (k, seed, 12000, 5 if q else 50, codec.hx(bytes(hdr) + c), codec.hx(x)))
+    # hostile dictionaries: damaged headers of accepted ones; whatever one loader accepts the other accepts; no trap under ASan+UBSan
+    pool = [(n, d, len(d) - len(ADV_INFO[n][1])) for n, d in fm] + [(n, d, max(9, len(d) - 300)) for n, d in dicts if n.startswith(("http", "zero"))]
+    for k in range(80 if q else 1200):
+        if not pool:
+            break
+        n, d, hl = rng.choice(pool)
+        x = inputs.get([nn for nn, _ in dicts].index(n), b"abc" * 100)[:20000]
+        alines.append("R h%d %d 0 %d 2 %s %s" % (k, seed + k, 8 if q else 20, codec.hx(hostile_variant(rng, d, hl)), codec.hx(x)))
+    t0 = time.time()
+    out = api_run(ctx, exe, lines, variant="o1")
+    t1 = time.time()
+    aout = api_run(ctx, exa, alines, nproc=8, variant="asan")
+    core.log("c08 api recipes: o1 %d lines %.1fs, asan %d lines %.1fs" % (len(lines), t1 - t0, len(alines), time.time() - t1))
+    tot = dict(ran=0, frames=0, refused=0, skipped=0)
+    for o in (out, aout):
+        for i, rest in o.items():
+            if rest.startswith("OK"):
+                for kv in rest.split(" ")[1:]:
+                    k, _, v = kv.partition("=")
+                    if k in tot:
+                        tot[k] += int(v)
+    ctx.notes["api_recipes"] = tot
+    ctx.count(("api-recipes",), nontrivial=True, n=tot["ran"])
+    # the last frame of each o1 line through the reference decoder R as well
+    rcases, want = [], {}
+    for i, rest in out.items():
+        if not rest.startswith("OK") or " frame=" not in rest or not i.startswith("a"):
+            continue
+        kind, xoff, xsize, fhex = rest.split(" frame=")[1].split(":")
+        di = int(i[1:].split(".")[0])
+        if len(rcases) >= (60 if q else 600):
+            break
+        d = dicts[di][1]
+        rcases.append((i, "nostrict" + (",rawdict" if kind == "1" else ""), d if kind != "0" and len(d) else None, codec.unhx(fhex) if fhex != "-" else b""))
+        want[i] = inputs[di][int(xoff):int(xoff) + int(xsize)]
+    nR = 0
+    for i, m in cd.model(rcases).items():
+        if m[0] != "OK":
+            if m[1] == "dict":
+                continue
+            ctx.violation(dict(kind="api-R", id=i, frame_hex=[c for c in rcases if c[0] == i][0][3].hex()[:60000], result="R: ERR %s site %s" % (m[1], m[2])),
+                          what="reference decoder R rejects a frame produced by a dictionary API recipe (%s at %s)" % (m[1], m[2]), key="C08-api-R")
+        elif m[1] != want[i]:
+            ctx.violation(dict(kind="api-R", id=i, frame_hex=[c for c in rcases if c[0] == i][0][3].hex()[:60000]),
+                          what="reference decoder R decodes a frame produced by a dictionary API recipe to different bytes", key="C08-api-R")
+        else:
+            nR += 1
+            ctx.cov["traces_validated_against_impl"] += 1
+    ctx.notes["api_frames_through_R"] = nR
+    # ---- the multi-DDict table with raw-content (dictID 0) entries ----
+    # the table is a hash set probed linearly; a referenced raw-content DDict has dictID 0, the value an empty slot also reports
+    base = next((d for n, d in dicts if n.startswith("http")), None) or (fm[0][1] if fm else None)
+    if base is not None:
+        hl = len(base) - 300 if len(base) > 400 else 9
+        content = codec.gen_input(rng, "text", 20000)
+        rawbig = rng.randbytes(60000)
+        x = bytearray(codec.gen_input(rng, "lowent", 12000))
+        for k in range(8):
+            x[1000 + 1300 * k:1000 + 1300 * k + 500] = content[5000 + 900 * k:5500 + 900 * k]
+        x = bytes(x)
+        ids = list(range(1, 65 if q else 400))
+        clines = ["C w%d usingDict:3 - - %s %s" % (v, codec.hx(base[:4] + v.to_bytes(4, "little") + base[8:hl] + content), codec.hx(x)) for v in ids]
+        clines.append("C noid compress2 %s load %s %s" % (codec.params_str({"level": 3, "dictID": 0}), codec.hx(base[:hl] + content), codec.hx(x)))
+        cout, cerrs = cd.impl(clines)
+        tl, meta = [], {}
+        other = base[:4] + (777777).to_bytes(4, "little") + base[8:hl] + content[::-1]
+        for v in ids:
+            r = codec.parse_ok(cout.get("w%d" % v, "ERR missing"))
+            if r[0] != "OK":
+                continue
+            dv = base[:4] + v.to_bytes(4, "little") + base[8:hl] + content
+            for mode in ("dctx", "stream", "usingddict"):
+                # (b) the raw entry first, then the right dictionary (active): must decode
+                tl.append("T b%d%s %s:1:r1,0 %s %s %s" % (v, mode, mode, codec.hx(r[1]), codec.hx(dv), codec.hx(rawbig)))
+                meta["b%d%s" % (v, mode)] = ("ok", x)
+            # (a) the table holds the raw entry and another dictionary only: must be refused
+            tl.append("T a%d dctx:1:r1,2 %s %s %s %s" % (v, codec.hx(r[1]), codec.hx(dv), codec.hx(rawbig), codec.hx(other)))
+            meta["a%d" % v] = ("refuse", x)
+        r = codec.parse_ok(cout.get("noid", "ERR missing"))
+        if r[0] == "OK":
+            for mode in ("dctx", "stream"):
+                tl.append("T n%s %s:1:r1,0 %s %s %s" % (mode, mode, codec.hx(r[1]), codec.hx(base[:hl] + content), codec.hx(rawbig)))
+                meta["n%s" % mode] = ("ok", x)
+        t0 = time.time()
+        tout = api_run(ctx, exe, tl, variant="o1", keyhint="C08-multiddict-id0-entry-matches-any-id")
+        core.log("c08 multi-DDict table: %d lines %.1fs" % (len(tl), time.time() - t0))
+        for i, (exp, xx) in meta.items():
+            r = codec.parse_ok(tout.get(i, "ERR missing"))
+            line = [l for l in tl if l.split(" ")[1] == i][0]
+            if exp == "ok" and (r[0] != "OK" or r[1] != xx):
+                ctx.violation(dict(kind="api", variant="o1", line=line, result=(r[1] if r[0] == "ERR" else "content differs")),
+                              what="multi-DDict table holding a raw-content DDict (dictID 0) and the frame's own dictionary: decoding fails (%s, case %s)" % (
+                                  r[1] if r[0] == "ERR" else "wrong bytes", i), key="C08-multiddict-id0-entry-matches-any-id")
+            if exp == "refuse" and r[0] == "OK":
+                ctx.violation(dict(kind="api", variant="o1", line=line, result="accepted"),
+                              what="multi-DDict table {raw-content DDict, another dictionary}: a frame naming a third dictionary ID is decoded instead of refused (case %s)" % i,
+                              key="C08-multiddict-id0-entry-matches-any-id")
+            ctx.count(("multiddict-raw-entry", exp, i[0]), nontrivial=True)
+    # ---- formatted dictionaries beyond the 2^24-byte reach of tagged ("short cache") CDict tables ----
+    if fm:
+        n, d = fm[0]
+        hdr = d[:len(d) - len(ADV_INFO[n][1])]
+        specs = [(17000000, 1, 0), (16777300, 3, 16777250)] if q else [(17000000, l, r) for l in (-1, 1, 2, 3, 4, 5) for r in (0, 1000, 16777216, 16900000)] + [(16777214, 1, 0), (16777215, 1, 0), (16777300, 3, 16777250)]
+        bl = ["B big%d %s %d %d %d" % (k, codec.hx(hdr), cs, lv, rp) for k, (cs, lv, rp) in enumerate(specs)]
+        t0 = time.time()
+        bout = api_run(ctx, exe, bl, nproc=min(len(bl), 6), variant="o1", keyhint="C08-cdict-shortcache-truncation-keeps-repcodes")
+        core.log("c08 big dictionaries: %d lines %.1fs" % (len(bl), time.time() - t0))
+        for i, rest in bout.items():
+            if not rest.startswith("OK"):
+                ctx.violation(dict(kind="api", variant="o1", line=[l for l in bl if l.split(" ")[1] == i][0], result=rest),
+                              what="formatted dictionary with more than 2^24 content bytes: %s" % rest, key="C08-cdict-shortcache-truncation-keeps-repcodes")
+            ctx.count(("big-dictionary", rest.split(" ")[0]), nontrivial=True)
+
+
+def api_replay(ctx, rp):
+    exe = core.build_harness("c08_api", ["c08_api.c"], variant=rp.get("variant", "o1"), extra_flags=["-w"])
+    if not rp.get("line"):
+        ctx.violation(rp, what="replay record carries no command line", no_input=True)
+        return
+    out, errs = codec._run_chunks(exe, [rp["line"]], 1, 2400)
+    rest = list(out.values())[0] if out else "no output"
+    core.log("replay: %s" % rest[:600])
+    if errs or not out or rest.startswith(("FAIL", "ERR")) or rp.get("result") == "accepted" and rest.startswith("OK"):
+        ctx.violation(rp, what="replayed: %s %s" % (rest[:300], (errs[0][1][-300:] if errs else "")))
+
+
 def run(ctx):
     ctx.cov["rule"] = ("dictionaries = raw sizes {0,1,7,8,9,100,3000,70000}, magic-but-short, golden, zero-weight, adversarial structurally valid "
                        "ones from harness/c08_mkdict.c (random Huffman: complete depth 11/12, missing symbols, direct weights with zeros; random "
@@ -164,6 +414,15 @@ def run(ctx):
                        "x attach prefs x levels incl. btopt+; x decompression modes {usingDict, ddict, ddictref, loaddict, multiddict, refprefix}; "
                        "distinct = distinct (dictionary class, loader verdicts, compression mode, decode mode, R trace signature)")
     ctx.prove()
+    if getattr(ctx, "replay_file", None):
+        try:
+            rp = json.load(open(ctx.replay_file)).get("replay", {})
+        except (OSError, ValueError):
+            rp = {}
+        if isinstance(rp, dict) and rp.get("kind") == "api":
+            api_replay(ctx, rp)
+            ctx.proof_verdict(None)
+            return
     rng = random.Random(ctx.seed)
     cd = codec.Codec(ctx)
     mkexe = core.build_harness("c08_mkdict", ["c08_mkdict.c"], variant="o1", extra_flags=["-w"])
@@ -364,6 +623,7 @@ def run(ctx):
         ctx.violation(dict(kind="sanitizer", detail=[e[1][-1500:] for e in aerrs[:2]]),
                       what="ASan/UBSan build crashed or trapped while using arbitrary bytes as a dictionary: %s" % aerrs[0][1][-300:].replace("\n", " "))
     ctx.count(("arbitrary-dict-bytes", len(aout) > 0), nontrivial=True, n=len(alines))
+    api_surface(ctx, random.Random(ctx.seed * 7919 + 5), cd, dicts, verdict)
     ctx.sample(dict(dictionary=dicts[-1][0], dict_hex=dicts[-1][1].hex()[:300]))
     if cases:
         ctx.sample(dict(entry=cases[0]["entry"], dictmode=cases[0]["dictmode"], params=cases[0]["params"], dict=dicts[cases[0]["di"]][0]))
